@@ -119,6 +119,9 @@ def ref_operator(M, B, K, h, order, dyn, dps=80):
     mp.mp.dps = dps
     dyn = list(dyn)
     n = len(dyn)
+    key = (_np.asarray(M, float).tobytes(), _np.asarray(B, float).tobytes(), _np.asarray(K, float).tobytes(), float(h), order, tuple(dyn))
+    if key in _REFCACHE:
+        return _REFCACHE[key]
     Md = mp.matrix([[M[i, j] for j in dyn] for i in dyn])
     Bd = mp.matrix([[B[i, j] for j in dyn] for i in dyn])
     Kd = mp.matrix([[K[i, j] for j in dyn] for i in dyn])
@@ -147,7 +150,11 @@ def ref_operator(M, B, K, h, order, dyn, dps=80):
         G0 = G1s
         G1 = mp.zeros(2 * n, n)
     cv = lambda X: [[_toQ(X[i, j]) for j in range(X.cols)] for i in range(X.rows)]
-    return cv(Phi), cv(G0), cv(G1)
+    _REFCACHE[key] = (cv(Phi), cv(G0), cv(G1))
+    return _REFCACHE[key]
+
+
+_REFCACHE = {}
 
 
 def ref_solution(M, B, K, h, order, rf, Fz, d0z, v0z, nt):
